@@ -25,6 +25,7 @@ def worktree():
 def drop(wt):
     subprocess.run(["git", "-C", "/repo", "worktree", "remove", "--force", wt], capture_output=True)
     shutil.rmtree(wt, ignore_errors=True)
+    shutil.rmtree(os.path.join("/var/tmp/nlverif/alt-evidence", os.path.basename(wt)), ignore_errors=True)
 
 
 def build(wt):
@@ -53,7 +54,8 @@ def main():
     wt = worktree()
     clean = worktree()
     try:
-        rc, out = sh("git apply %s" % os.path.join(src, "patch.diff"), cwd=wt)
+        APPLY = "git apply %s 2>/dev/null || patch -p1 -F3 -s --no-backup-if-mismatch < %s" % ((os.path.join(src, "patch.diff"),) * 2)
+        rc, out = sh(APPLY, cwd=wt)
         meta["patch_applies"] = rc == 0
         if rc != 0:
             print("patch does not apply:", out)
@@ -76,7 +78,7 @@ def main():
             meta["confirmed"] = bool(meta["builds"] and suite_ok and d1 != 0 and d0 == 0)
             print("confirmed=%s builds=%s suite=%s demo changed=%d clean=%d" % (meta["confirmed"], meta["builds"], meta["suite"], d1, d0))
             sh("git checkout -- . ; git clean -fdq -e bin -e obj", cwd=wt)
-            sh("git apply %s" % os.path.join(src, "patch.diff"), cwd=wt)
+            sh(APPLY, cwd=wt)
             meta["checks"] = {}
             for c in checks:
                 t0 = time.time()
